@@ -4,7 +4,9 @@ import logging
 from haiway import ctx
 
 from harness.interp import World
-from harness.legs import cfg_text, leg_m, leg_mutant, leg_r
+import random
+
+from harness.legs import cfg_text, gen_traces, leg_m, leg_mutant, leg_r, leg_t_gen
 
 SPEC = "Logs"
 MANIFEST = dict(
@@ -242,6 +244,55 @@ def make():
     return d
 
 
+def gen_trace(rnd, ntasks=4, nscopes=10, nops=40):
+    """a random program of up to 4 tasks and 10 scopes (nesting up to 5 deep; own loggers, own trace ids, all name kinds),
+    log calls of every level / message form from every position, recorded from the real library"""
+    d = make()
+    d.reset(dict(alive=[0] * ntasks))
+    tr = [dict(ev="Init", init={})]
+    stack = {1: []}
+    alive, born, nsid = [1], 1, 0
+    try:
+        for _ in range(nops):
+            t = rnd.choice(alive)
+            ch = [("Log", None)] * 5
+            if nsid < nscopes and len(stack[t]) < 5:
+                ch += [("Open", None)] * 4
+            if stack[t]:
+                ch += [("Close", None)] * 2
+            if born < ntasks:
+                ch += [("Start", None)]
+            name = rnd.choice(ch)[0]
+            if name == "Open":
+                args = [t, rnd.choice(["plain", "empty", "fmt", "pct"]), rnd.random() < 0.3, rnd.random() < 0.3]
+                nsid += 1
+                stack[t].append(nsid)
+            elif name == "Close":
+                args = [t]
+                stack[t].pop()
+            elif name == "Start":
+                born += 1
+                args = [t, born]
+                stack[born] = []
+                alive.append(born)
+            else:
+                lvl = rnd.choice(["debug", "info", "warning", "error"])
+                args = [t, lvl, rnd.choice(["noargs", "args", "pct_noargs", "mapping"]), lvl != "info" and rnd.random() < 0.3]
+            o = d.apply(name, tuple(args))
+            tr.append(dict(ev=name, args=args, obs=o))
+    finally:
+        d.close()
+    return tr
+
+
+TRACE_KW = dict(
+    variables=["par", "phase", "label", "lg", "tr", "cur", "stack", "saved", "alive", "nops", "obs"],
+    constants=dict(NTasks=4, N=10, MaxOps=100000, Labels='{"plain", "empty", "fmt", "pct"}',
+                   Levels='{"debug", "info", "warning", "error"}', Bug='"none"'),
+    config_vars=[], actions=dict(Open=4, Close=1, Log=4, Start=2),
+    invariants=["LoggerRule", "TraceInherited", "LineSane"])
+
+
 def run(rep, work, tier, seed):
     lv = ["debug", "info", "warning", "error"]
     if tier == "quick":
@@ -262,6 +313,10 @@ def run(rep, work, tier, seed):
     # a task that outlives the scope it inherited and opens a scope afterwards (4-5 operations), on a narrow alphabet
     late = dict(NTasks=2, N=3, MaxOps=4 if tier == "quick" else 5, Labels=["plain"], Levels=["warning"], Bug="none")
     leg_r(rep, work, SPEC, f"conf_late_{tier}", cfg_text(late, invariants=INVS), make, world=True)
+    # leg T: random programs (4 tasks, 10 scopes, nesting up to 5) validated by a trace module generated from Logs.tla
+    rnd = random.Random(seed * 47 + 9)
+    traces = gen_traces(rep, lambda: gen_trace(rnd), 100 if tier == "quick" else 1500)
+    leg_t_gen(rep, work, SPEC, f"trace_{tier}", traces, **TRACE_KW)
     rep.assumptions += [
         "a line counts as emitted when a handler attached to the expected logger receives a record whose message "
         "formats without error (record.getMessage()), as any formatting handler would require",
